@@ -853,8 +853,8 @@ pub const N_TOKENS_SMALL: &[&str] = &["<", ">", "[>]", "[<]", "[]", ".", "+", "[
 pub const N_TOKENS_FULL: &[&str] = &["<", ">", "[>]", "[<]", "[]", ".", "+", "[-]", "-", "[.]", "[>+<-]", ","];
 pub const N_PREFIXES: &[&str] = &["+>+", "+>+>+<", ",>,"];
 
-pub fn space_n(full: bool, f: &mut dyn FnMut(u64, &[u8])) -> u64 {
-    let (tokens, depth) = if full { (N_TOKENS_FULL, 5) } else { (N_TOKENS_SMALL, 5) };
+pub fn space_n(full: bool, depth: usize, f: &mut dyn FnMut(u64, &[u8])) -> u64 {
+    let tokens = if full { N_TOKENS_FULL } else { N_TOKENS_SMALL };
     let mut idx = 0u64;
     let mut body: Vec<usize> = Vec::new();
     fn emit(tokens: &[&str], body: &[usize], idx: &mut u64, f: &mut dyn FnMut(u64, &[u8])) {
